@@ -104,11 +104,41 @@ func TestC08Standin(t *testing.T) {
 		// conversations
 		nConv := 2 + rng.Intn(5)
 		var pkts []c08Packet
-		for c := 0; c < nConv; c++ {
-			at := time.Duration(rng.Intn(20)) * time.Second
-			for k := 1 + rng.Intn(4); k > 0; k-- {
-				pkts = append(pkts, c08Packet{conv: c, reply: len(pkts) > 0 && pkts[len(pkts)-1].conv == c && rng.Intn(2) == 0, at: at, payload: words[rng.Intn(len(words))]})
-				at += time.Duration(1+rng.Intn(30)) * time.Second
+		longLived := false
+		filler := 0
+		if round == 0 && os.Getenv("C08_SNAPSHOT") != "0" {
+			// one round with a capture large enough for a reassembly snapshot (100000 packets): a conversation that
+			// started long before the snapshot point and is still active has to be part of the snapshot
+			nConv = 2
+			for k := 0; k < 6; k++ {
+				pkts = append(pkts, c08Packet{conv: 0, at: time.Duration(2*k) * time.Minute, payload: fmt.Sprintf("a%d", k)})
+			}
+			filler = 100200
+			longLived = true
+		} else {
+			for c := 0; c < nConv; c++ {
+				at := time.Duration(rng.Intn(20)) * time.Second
+				slow := rng.Intn(3) == 0
+				n := 1 + rng.Intn(4)
+				if slow {
+					n = 3 + rng.Intn(4)
+				}
+				for k := n; k > 0; k-- {
+					pkts = append(pkts, c08Packet{conv: c, reply: len(pkts) > 0 && pkts[len(pkts)-1].conv == c && rng.Intn(2) == 0, at: at, payload: words[rng.Intn(len(words))]})
+					if slow {
+						// a long lived conversation: every gap is below the 5 minute idle limit, the whole is not
+						at += time.Duration(120+rng.Intn(120)) * time.Second
+						longLived = longLived || k > 2
+					} else {
+						at += time.Duration(1+rng.Intn(30)) * time.Second
+					}
+				}
+			}
+		}
+		if filler > 0 {
+			// the filler: one busy conversation, 0.3 ms between datagrams, starting at minute 6.5
+			for k := 0; k < filler; k++ {
+				pkts = append(pkts, c08Packet{conv: 1, at: 390*time.Second + time.Duration(k)*300*time.Microsecond, payload: "f"})
 			}
 		}
 		sort.SliceStable(pkts, func(i, j int) bool { return pkts[i].at < pkts[j].at })
@@ -120,6 +150,16 @@ func TestC08Standin(t *testing.T) {
 		cuts := map[int]bool{}
 		for len(cuts) < nFiles-1 {
 			cuts[1+rng.Intn(len(pkts)-1)] = true
+		}
+		if filler > 0 {
+			// two captures: everything up to minute 9 (the snapshot is taken inside it), and the rest
+			cuts = map[int]bool{}
+			for i, p := range pkts {
+				if p.at > 9*time.Minute {
+					cuts[i] = true
+					break
+				}
+			}
 		}
 		var files [][]c08Packet
 		var cur []c08Packet
@@ -134,7 +174,11 @@ func TestC08Standin(t *testing.T) {
 		var desc []string
 		for _, f := range files {
 			var ps []string
-			for _, p := range f {
+			for pi, p := range f {
+				if pi > 40 {
+					ps = append(ps, fmt.Sprintf("... %d more", len(f)-pi))
+					break
+				}
 				dir := ">"
 				if p.reply {
 					dir = "<"
@@ -156,7 +200,7 @@ func TestC08Standin(t *testing.T) {
 			return makeUDPPacket(cl, sv, t1.Add(p.at), p.payload)
 		}
 		// one way of importing: order of the files, one call or one by one, restarts in between
-		run := func(name string, order []int, oneCall bool, restart bool) ([]string, bool) {
+		run := func(name string, order []int, oneCall bool, restart bool, noWait ...bool) ([]string, bool) {
 			d := makeTempdirs(t)
 			mgr := makeManager(t, d)
 			defer func() { mgr.Close() }()
@@ -208,6 +252,14 @@ func TestC08Standin(t *testing.T) {
 				if !check("after the import") {
 					return nil, false
 				}
+			} else if len(noWait) > 0 && noWait[0] {
+				// one call per capture, back to back: the later ones wait in the import queue
+				for _, i := range order {
+					mgr.ImportPcaps(names[i])
+				}
+				if !check("after the queued imports") {
+					return nil, false
+				}
 			} else {
 				for k, i := range order {
 					events, closer := mgr.Listen()
@@ -239,21 +291,53 @@ func TestC08Standin(t *testing.T) {
 		if !ok {
 			continue
 		}
-		if len(ref) != nConv {
+		if len(ref) != nConv && filler == 0 {
 			fail("one-shot", input, fmt.Sprintf("importing everything at once shows %d streams for %d conversations: %v", len(ref), nConv, ref))
 		}
 		for _, w := range []struct {
 			name    string
 			order   []int
 			restart bool
-		}{{"one by one, in order", inOrder, false}, {fmt.Sprintf("one by one, order %v", shuffled), shuffled, false}, {"one by one with restarts", inOrder, true}} {
+			queued  bool
+		}{{"one by one, in order", inOrder, false, false}, {fmt.Sprintf("one by one, order %v", shuffled), shuffled, false, false}, {"one by one with restarts", inOrder, true, false}, {"one call per capture, back to back", inOrder, false, true}} {
+			// arrival out of order of a conversation longer than the idle limit: a known finding (a flow that was
+			// split by the idle limit while a capture in its middle was missing keeps its second stream when the
+			// capture arrives); failures of these evaluations are classified apart
+			knownClass := longLived && strings.HasPrefix(w.name, "one by one, order")
+			if knownClass && filler > 0 {
+				continue
+			}
+			before := map[string]int{}
+			for k, v := range classes {
+				before[k] = v
+			}
+			nf := len(failures)
 			evals++
-			got, ok := run(w.name, w.order, false, w.restart)
+			got, ok := run(w.name, w.order, false, w.restart, w.queued)
+			if knownClass {
+				// re-label what this evaluation reported
+				for k, v := range classes {
+					if v != before[k] {
+						classes["out-of-order-long-lived"] += v - before[k]
+						classes[k] = before[k]
+						if classes[k] == 0 {
+							delete(classes, k)
+						}
+					}
+				}
+				for i := nf; i < len(failures); i++ {
+					failures[i].Class = "out-of-order-long-lived"
+				}
+			}
 			if !ok {
 				continue
 			}
 			if strings.Join(got, "\n") != strings.Join(ref, "\n") {
-				fail("differs", input, fmt.Sprintf("%s shows %v, importing everything at once shows %v", w.name, got, ref))
+				cls := "differs"
+				if knownClass {
+					cls = "out-of-order-long-lived"
+				}
+				fail(cls, input, fmt.Sprintf("%s shows %v, importing everything at once shows %v", w.name, got, ref))
 			} else {
 				nontrivial++
 			}
